@@ -33,6 +33,10 @@ if os.environ.get("VERIF_WALL"):
                 _wall["n"] += 1
                 return _wall["base"] + datetime.timedelta(minutes=25 * _wall["n"])
             return _wall["base"]
+        @classmethod
+        def now(cls, tz=None):
+            t = WallClock.utcnow()      # the WALL clock, also when called on the simulation's subclass (which overrides utcnow only)
+            return t.replace(tzinfo=datetime.timezone.utc).astimezone(tz) if tz is not None else t
     datetime.datetime = WallClock
 from flumine import FlumineSimulation, clients, config
 from flumine.strategy.strategy import BaseStrategy
